@@ -28,7 +28,7 @@ inductive JVal where
 
 /-- exception classes -/
 inductive Err where
-  | assertion | delegation | pool | key | type | attribute | capacity | label | unmodelled
+  | assertion | delegation | pool | key | type | attribute | capacity | label | query | unmodelled
   deriving DecidableEq, Repr
 
 inductive DType where
@@ -72,10 +72,12 @@ structure Delegations (D : Type) where
 
 variable {D : Type}
 
-/-- `Delegation.__init__` -/
+/-- `Delegation.__init__`: a pool definition / reference needs a pool name, and (repaired, /repo ac819ce) not the
+name reserved for single-element delegations -/
 def mkDelegation (ty : DType) (id : String) (fmt : Fmt) (pool : Option String) :
     Except Err (Delegation D) :=
   if fmt ≠ .single ∧ pool = none then .error .assertion
+  else if fmt ≠ .single ∧ pool = some singlePoolName then .error .delegation
   else .ok { ty := ty, id := id, fmt := fmt, pool := pool, details := none }
 
 /-- `Delegation.set_details` -/
@@ -196,6 +198,10 @@ def mkPool (ty : DType) (pid : String) (deleg on_ : Option String) (for_ : List 
   { ty := ty, pid := pid, deleg := deleg, on_ := on_,
     for_ := (for_.foldl addSet []).filter (fun n => some n ≠ on_), details := none }
 
+/-- `Pool(...)` as a call: the reserved name is rejected (repaired, /repo ac819ce) -/
+def newPool (ty : DType) (pid : String) (deleg on_ : Option String) (for_ : List String) : Except Err (Pool D) :=
+  if pid = singlePoolName then .error .pool else .ok (mkPool ty pid deleg on_ for_)
+
 /-- `Pool.set_defined_for(list)`: replaces the set (asserts a non-empty list; does not remove the defining node) -/
 def setDefinedFor (p : Pool D) (l : List String) : Except Err (Pool D) :=
   if l = [] then .error .assertion else .ok { p with for_ := l.foldl addSet [] }
@@ -222,7 +228,9 @@ def putPool (p : Pool D) : List (Pool D) → List (Pool D)
 
 /-- `Pools.add_pool` -/
 def addPool (ps : Pools D) (p : Pool D) : Except Err (Pools D) :=
-  if p.ty ≠ ps.ty then .error .pool else .ok { ps with byId := putPool p ps.byId }
+  if p.ty ≠ ps.ty then .error .pool
+  else if p.pid = singlePoolName then .error .pool
+  else .ok { ps with byId := putPool p ps.byId }
 
 /-- `Pool.validate_pool` -/
 def validatePool (p : Pool D) : Except Err Unit :=
@@ -300,6 +308,13 @@ def generate (ops : DetailOps D) (ps : Pools D) : Except Err (NodeDelegs D) :=
   | some idx =>
     idx.foldlM (fun ret e => e.2.foldlM (fun ret p => genPool ops ps.ty e.1 p ret) ret) []
 
+/-- `get_pool_by_id(pool_id=pid)` (not strict): the registered pool, or a new one - which `Pool(...)` refuses for the
+reserved name (`add_pool` of the new pool is the `putPool` of the caller: the pool is stored again right away) -/
+def poolFor (ty : DType) (byId : List (Pool D)) (pid : String) : Except Err (Pool D) :=
+  match getPool byId pid with
+  | some p => .ok p
+  | none => newPool ty pid none none []
+
 /-- one iteration of the loop of `incorporate_delegation` -/
 def incOne (ty : DType) (node : String) (byId : List (Pool D)) (d : Delegation D) :
     Except Err (List (Pool D)) :=
@@ -308,8 +323,8 @@ def incOne (ty : DType) (node : String) (byId : List (Pool D)) (d : Delegation D
   | .definition =>
     match d.pool with
     | none => .error .assertion
-    | some pid =>
-      let p := (getPool byId pid).getD (mkPool ty pid none none [])
+    | some pid => do
+      let p ← poolFor ty byId pid
       if p.on_.isSome then .error .pool
       else match d.details with
         | none => .error .assertion
@@ -317,8 +332,8 @@ def incOne (ty : DType) (node : String) (byId : List (Pool D)) (d : Delegation D
   | .reference =>
     match d.pool with
     | none => .error .assertion
-    | some pid =>
-      let p := (getPool byId pid).getD (mkPool ty pid none none [])
+    | some pid => do
+      let p ← poolFor ty byId pid
       .ok (putPool { p with for_ := addSet p.for_ node, deleg := some d.id } byId)
 
 /-- `Pools.incorporate_delegation(node_id, deleg)` (on a `Pools` whose index has not been built) -/
@@ -342,6 +357,31 @@ def recode (ops : DetailOps D) (ty : DType) (r : NodeDelegs D) : Except Err (Nod
   r.mapM (fun e => do
     let j ← encode ops e.2
     let ds ← decode ops ty j
+    pure (e.1, ds))
+
+/-! ## Writing onto a model and reading back (`ABCARMPropertyGraph.annotate_delegations_and_pools`, `get_delegations`) -/
+
+/-- `for node, ds in dels.items(): if delegations_per_node.get(node) is not None: raise PropertyGraphQueryException;
+delegations_per_node[node] = ds` - a node cannot carry both pool entries and its own single-resource delegations -/
+def mergeSingles (r : NodeDelegs D) : NodeDelegs D → Except Err (NodeDelegs D)
+  | [] => .ok r
+  | e :: rest => if (lookup e.1 r).isSome then .error .query else mergeSingles (r ++ [e]) rest
+
+/-- what `annotate_delegations_and_pools(dels=dels, pools=ps)` writes with `update_node_property`: the type whose
+delegations property is written (the *pools'* type) and, node by node in dictionary order, the JSON value of `to_json()` of
+the node's `Delegations` (what is left written when a `to_json` raises half-way is not modelled) -/
+def annotate (ops : DetailOps D) (ps : Pools D) (dels : NodeDelegs D) : Except Err (DType × List (String × JVal)) := do
+  let r ← generate ops ps
+  let r ← mergeSingles r dels
+  let w ← r.mapM (fun e => do
+    let j ← encode ops e.2
+    pure (e.1, j))
+  pure (ps.ty, w)
+
+/-- `get_delegations(node_id, delegation_type=ty)` for every written node: `Delegations.from_json(text, atype=ty)` -/
+def readAll (ops : DetailOps D) (ty : DType) (w : List (String × JVal)) : Except Err (NodeDelegs D) :=
+  w.mapM (fun e => do
+    let ds ← decode ops ty e.2
     pure (e.1, ds))
 
 /-! ## A concrete details type: the instance `__dict__` of `Capacities` / `Labels` -/
